@@ -22,7 +22,7 @@ type c17op struct {
 }
 
 var c17optNames = []string{"no options", "full short tags + colour", "partial short tags", "treated as Info", "treated as Error + error device",
-	"error device option without argument", "error device (false,true)", "fg+bg colour + treated as Info + error device + full tags"}
+	"error device option without argument", "error device (false,true)", "fg+bg colour + treated as Info + error device + full tags", "treated as Error + error device (true,false): an explicit no"}
 
 type c17reg struct {
 	title  string
@@ -57,6 +57,9 @@ func c17opts(i int) (opts []slog.RegOpt, r c17reg) {
 		opts = append(opts, slog.RegWithColor(color.FgYellow, color.BgUnderline), slog.RegWithTreatedAsLevel(slog.InfoLevel),
 			slog.RegWithPrintToErrorDevice(true), slog.RegWithShortTags(full))
 		r.tags, r.treat, r.errDev = full, slog.InfoLevel, true
+	case 8:
+		opts = append(opts, slog.RegWithTreatedAsLevel(slog.ErrorLevel), slog.RegWithPrintToErrorDevice(true, false)) // the last one wins: not requested
+		r.treat, r.errDev = slog.ErrorLevel, false
 	}
 	return
 }
@@ -306,11 +309,11 @@ func c17replay(cas c17case, checkAll bool) (*Violation, string) {
 func c17alphabet(thorough bool, depth int) []c17op {
 	vals := []int{-8, 0, 7, 8, 12, 18, 1000}
 	titles := []string{"notice", "NOTICE", "Hint", "panic", "Panic", "warn", "warning", "", "x", `q"uo\te`, "tab\there", "404", "-7", "caf\xe9", "bell\x07"}
-	opts := []int{0, 1, 2, 3, 4, 5, 6, 7}
+	opts := []int{0, 1, 2, 3, 4, 5, 6, 7, 8}
 	if depth >= 3 {
 		vals = []int{-8, 0, 12, 18}
 		titles = []string{"notice", "NOTICE", "panic", "Hint"}
-		opts = []int{0, 2, 4, 7}
+		opts = []int{0, 2, 4, 7, 8}
 	}
 	if depth >= 4 {
 		vals = []int{-8, 12, 18}
